@@ -28,13 +28,13 @@ Print Assumptions C06_gopher_view.
 
 (* Gemini: the gemtext line reader applied to the rendered line *)
 Theorem C06_gemini_view : forall sn sp e, entry_wf sn sp e = true ->
-  exists l v, gem_renderobjinfo FGemini sn e = Some (l ++ [10]) /\ mem_N 10 l = false /\
+  exists l v, gem_renderobjinfo FGemini sn sp e = Some (l ++ [10]) /\ mem_N 10 l = false /\
               view_gemline l = v /\ view sn sp e = Some v.
 Proof. exact (fun sn sp e => C06Facts.gem_line_wf FGemini sn sp e ltac:(discriminate)). Qed.
 Print Assumptions C06_gemini_view.
 
 Theorem C06_spartan_view : forall sn sp e, entry_wf sn sp e = true ->
-  exists l v, gem_renderobjinfo FSpartan sn e = Some (l ++ [10]) /\ mem_N 10 l = false /\
+  exists l v, gem_renderobjinfo FSpartan sn sp e = Some (l ++ [10]) /\ mem_N 10 l = false /\
               view_gemline l = v /\ view sn sp e = Some v.
 Proof. exact (fun sn sp e => C06Facts.gem_line_wf FSpartan sn sp e ltac:(discriminate)). Qed.
 Print Assumptions C06_spartan_view.
@@ -44,7 +44,7 @@ Print Assumptions C06_spartan_view.
 Theorem C06_http_view : forall icons sn sp e,
   icons_ok icons = true -> entry_wf sn sp e = true ->
   exists row r v,
-    http_renderobjinfo icons sn e = Some row /\ reads_rows row [r] /\
+    http_renderobjinfo icons sn sp e = Some row /\ reads_rows row [r] /\
     view_hrow r = v /\ view sn sp e = Some v.
 Proof. exact C06Facts.http_row_view. Qed.
 Print Assumptions C06_http_view.
@@ -53,7 +53,7 @@ Print Assumptions C06_http_view.
 Theorem C06_wap_view : forall waptop sn sp st e,
   is_local_href waptop = true -> entry_wf sn sp e = true ->
   exists row st' it v,
-    wap_renderobjinfo waptop sn st e = Some (row, st') /\ reads_items row [it] /\
+    wap_renderobjinfo waptop sn sp st e = Some (row, st') /\ reads_items row [it] /\
     view_witem waptop it = v /\ view sn sp e = Some v.
 Proof. exact C06Facts.wap_row_view. Qed.
 Print Assumptions C06_wap_view.
@@ -79,6 +79,20 @@ Theorem C06_same_entries : forall p q c d es,
     (c_abs_entries c <> AeUnsupported \/ groksabstract p = groksabstract q -> vp = vq).
 Proof. exact C06Facts.same_entries. Qed.
 Print Assumptions C06_same_entries.
+
+(* the pinned renderers handed geturl the constant 70 for an entry without a port of its own: with the
+   server on another port HTTP/WAP/Gemini/Spartan named a different port than the Gopher line
+   (the model takes that port as a parameter; fixed in /repo ee294ab) *)
+Theorem C06_default_port_refuted :
+  exists sn sp row r l,
+    entry_wf sn sp far_e = true /\
+    http_renderobjinfo [] sn 70%Z far_e = Some row /\ html_rows row = [r] /\
+    gem_renderobjinfo FGemini sn 70%Z far_e = Some (l ++ [10]) /\
+    Some (view_hrow r) <> view sn sp far_e /\ Some (view_gemline l) <> view sn sp far_e /\
+    v_target (view_hrow r) = Some (lit "gopher://other.example:70/9dot./x") /\
+    option_map v_target (view sn sp far_e) = Some (Some (lit "gopher://other.example:7070/9dot./x")).
+Proof. exact C06Facts.default_port_refuted. Qed.
+Print Assumptions C06_default_port_refuted.
 
 (* the MIME type adjusters agree except on the menu type, which each protocol maps to its own
    listing type; WAP additionally converts text/plain and untyped documents *)
